@@ -201,7 +201,11 @@ fn case_impl(t0: &mut Tape, w: &Worker, exhaustive: bool) -> CaseResult {
             args.insert(0, p.display().to_string());
             Input::File(p)
         };
-        let spec = RunSpec::new(args, input);
+        let mut spec = RunSpec::new(args, input);
+        if stdin {
+            // now and then the producer on the pipe stalls (in mid-stream or after its first few bytes)
+            spec.pause = stall_for(&data, 150);
+        }
         let o = cli::run(&w.cli, &spec);
         (spec, o)
     };
